@@ -103,6 +103,11 @@ CHECKS = {
             "All strings of length<=5 (thorough 6) over a 14-symbol special alphabet and all sequences of <=4 (5) fragments of two further alphabets go through every pure stage; 5k (60k) generated lines and 96 (1000) pty sessions go through the real shell.",
             "step budget 2000/3000 iterations = non-termination; hang is a violation only with a /proc diagnosis",
             "DESIGN.md 3 C05"),
+    "C20": ("exploration",
+            "runtime monitoring: live pty sessions typing a prefix + TAB + Enter in generated directories with an observer recording the argv finally received; in-process companion (hook exports) emulating the editor's splice for every short name in three quoting contexts and checking candidate sets",
+            "Every name of length<=2 (thorough 3) over a 30-symbol special alphabet x {unquoted, open double quote, open single quote} x {file, directory} goes through word-start + complete_path + splice + planning in-process; 240 (2500) generated directory populations are exercised through a real pty.",
+            "prefixes typed as cicada's tokenizer reads them back; untypable prefixes skipped and counted",
+            "DESIGN.md 3 C20"),
 }
 
 NOT_YET = "check not built yet (work in progress); runtime monitoring is applicable and planned, see DESIGN.md section 3"
